@@ -299,6 +299,10 @@ def base_catalogue():
     c.append(T("S19ConcreteAll", err="CatErr", deny="default", validate=True, fields=[
         F("a", "u8", try_from=("u8", False)), F("b", "String", error="FieldErr", default="trait"),
         F("c", "bool", missing_fn=True), F("d", "u8", skip=True)]))
+    # a field with an error type of its own *and* a fallible conversion: the conversion error goes to the field's error type
+    # first, then to the container's (C11.TRYFROM)
+    c.append(T("S28FieldErrTryFrom", err="CatErr", fields=[
+        F("x", "u8", try_from=("u8", False), error="FieldErr"), F("y", "String", try_from=("String", True), error="FieldErr", default="trait"), F("z", "bool")]))
     # nesting
     c.append(T("S20Nested", fields=[F("inner", "S01Plain", needs_predicate=True), F("list", "Vec<S05Defaults>", needs_predicate=True),
                                     F("maybe", "Option<S10Deny>", needs_predicate=True)]))
